@@ -91,10 +91,6 @@ def reprFlt (m : Int) (k : Nat) : Outcome Str :=
 
 def hugeInt (i : Int) : Bool := i.natAbs ≥ 10 ^ 1000
 
-partial def pyStrList (f : Val → Outcome Str) : List Val → Outcome (List Str)
-  | [] => .ok []
-  | v :: vs => do let a ← f v; let r ← pyStrList f vs; .ok (a :: r)
-
 /-- Python `str(v)` -/
 def pyStr : Val → Outcome Str
   | .int i => if hugeInt i then .oom "str() of a huge int" else .ok (intToStr i)
@@ -138,14 +134,15 @@ def strLt : Str → Str → Bool
 
 def strCmp (a b : Str) : Ordering := if a == b then .eq else if strLt a b then .lt else .gt
 
-/-- Python `==` -/
-partial def pyEq : Val → Val → Bool
+/-- Python `==` (lists are compared by the caller: out of model) -/
+def pyEq : Val → Val → Bool
   | .str a, .str b => a == b
-  | .list a, .list b => a.length == b.length && (a.zip b).all (fun (x, y) => pyEq x y)
   | x, y =>
     match num? x, num? y with
     | some (a, ka, _), some (b, kb, _) => cmpNum a ka b kb == .eq
     | _, _ => false
+
+def isList : Val → Bool | .list _ => true | _ => false
 
 /-- integer power -/
 def ipow (a : Int) (n : Nat) : Int := a ^ n
@@ -170,8 +167,8 @@ def binop (op : String) (l r : Val) : Outcome Val :=
     match l with
     | .list xs => .ok (.list (xs ++ [r]))
     | _ => .ok (.list [l, r])
-  | "==" => .ok (.bool (pyEq l r))
-  | "!=" => .ok (.bool (!pyEq l r))
+  | "==" => if isList l && isList r then .oom "equality of lists" else .ok (.bool (pyEq l r))
+  | "!=" => if isList l && isList r then .oom "equality of lists" else .ok (.bool (!pyEq l r))
   | "<" | ">" | "<=" | ">=" =>
     let dec := fun (o : Ordering) =>
       match op with
